@@ -1,4 +1,5 @@
 import DendroModel.Theory.C10Rel
+import DendroModel.Theory.C10Sort
 /-! C10 — world level: every operation updates the existing namespaces by primitive changes (`Upd`) or appends a
 new namespace that satisfies the invariant. -/
 namespace DendroModel.C10.Aux
@@ -18,7 +19,7 @@ def _root_.DendroModel.C10.Op.grows : Op → Bool
   | _ => false
 
 def _root_.DendroModel.C10.Op.appends : Op → Bool
-  | .mkns _ _ | .copy _ | .deep _ => true
+  | .mkns _ _ | .copy _ | .deep _ | .mknsImm _ _ | .copyKw _ _ _ => true
   | _ => false
 
 structure Upd (c : Cfg) (w w' : World) : Prop where
@@ -247,5 +248,30 @@ theorem stepNs_upd {w : World} {n : Nat} {s : NS} (hs : w.nss[n]? = some s) (op 
     intro B _; exact upd_setNs hs (key B)
   | bits n' m => intro B _; exact upd_refl _ _
   | isIn n' t => intro B _; exact upd_refl _ _
+  | sortk n' k rev => intro B _; exact upd_setNs hs (.single (.perm _ (sortWith_perm _ _ _ _ _)))
+  | btli n' m idx => intro B _; exact upd_refl _ _
+  | tbmKw n' taxa labels c first =>
+    simp only [stepNs]
+    cases taxa with
+    | some ts =>
+      simp only
+      have key : ∀ B, Rel ⟨false, false, B⟩ s (s.taxaBitmask ts 0).1 := fun B => taxaBitmask_rel ts s 0
+      rcases h : s.taxaBitmask ts 0 with ⟨s', r⟩
+      rw [h] at key
+      intro B _; exact upd_setNs hs (key B)
+    | none =>
+      cases labels with
+      | none => intro B _; exact upd_refl _ _
+      | some ls =>
+        simp only
+        have key : ∀ B, Rel ⟨false, false, B⟩ s (s.taxaBitmask (s.getTaxa w.lab c first ls []) 0).1 :=
+          fun B => taxaBitmask_rel _ s 0
+        rcases h : s.taxaBitmask (s.getTaxa w.lab c first ls []) 0 with ⟨s', r⟩
+        rw [h] at key
+        intro B _; exact upd_setNs hs (key B)
+  | mknsImm cs items => cases ha
+  | copyKw n' cs mu => cases ha
+  | scopedCopy n' => intro B _; exact upd_refl _ _
+  | ltm n' c l => intro B _; exact upd_refl _ _
 
 end DendroModel.C10.Aux
